@@ -2,13 +2,79 @@
 HOOK_COMMITS = []
 NOT_YET = {}
 COMMON_NOTE = ("Trusted: Coq 8.16.1 kernel + vm_compute, no axioms, no extraction; the Gallina model is hand-written and tied to the code "
-               "only by the correspondence run (differential, bounded by its generators); stdlib calls (fmt %v, ParseFloat, time.Parse) are "
-               "finite oracle tables filled from the stdlib per case; Go map iteration is modelled as sorted order. ")
+               "only by the correspondence run (differential, bounded by its generators); stdlib calls (fmt %v, ParseFloat, time.Parse/Unix) are "
+               "finite oracle tables filled from the stdlib per case; Go map iteration is modelled as sorted order; binary64 arithmetic is modelled "
+               "exactly (round-to-nearest-even on rationals). ")
+TECH = "Rocq proof over executable model + coqc-evaluated correspondence with the Go code"
+def m(text, ref, note=""):
+    return {"text": text, "design_ref": ref, "note": COMMON_NOTE + note, "technique": TECH}
 META = {
-    "C19": {
-        "text": "Theorems over the model for all columns and all int64 offsets (wrap-around of i-p included): cell-level specification, shape, "
-                "Shift(0)=copy, round trip. The model is tied to the code by running Shift on the real library (exhaustive small scope + random) "
-                "and re-evaluating model and specification in coqc on the same inputs.",
-        "design_ref": "6.19", "note": COMMON_NOTE, "technique": "Rocq proof over executable model + coqc-evaluated correspondence with the Go code",
-    },
+    "C01": m("Invariant by induction over operation histories: every public frame operation of the model maps well-formed (rectangular, own-name, "
+             "Nrows-consistent) frames to well-formed frames, hence every reachable state of every finite history is well formed; row alignment "
+             "lemmas (whole rows stay together). The model is run against the real library on random histories and the invariant is also evaluated "
+             "on the implementation's own frames after every step.", "6.1",
+             "Apply callbacks come from a fixed length-preserving menu; AddColumn data of matching length is a premise, as in the property's quantifier."),
+    "C02": m("Proof on a slice-level (L2) heap model: a separation invariant (no two column slots share a backing array) is preserved by every copy-derivation "
+             "and in-place edit for every growth policy, under it a step changes only the edited frame, and L2 refines the value-level model; the historical "
+             "aliasing Head is refuted in the model. The real library is run on every (derive, edit, side) pair and random interleavings and checked "
+             "for cross-frame interference after every step.", "6.2",
+             "The L2 transcription (which operations copy, which splice in place) is by hand; capacities are not observable through the public API, so the "
+             "correspondence compares contents only. Garbage collector and unsafe are outside the model."),
+    "C03": m("Theorems: the four joins of the model are the relational comprehensions of the statement (order, unmatched rows, union of columns, "
+             "left-wins merge, counting), missing key iff error, never panic, rectangular result. Exhaustive small-scope key columns plus random pairs are "
+             "run on the real library and compared cell by cell.", "6.3", "NaN, non-comparable and time keys are outside the quantifier."),
+    "C04": m("Theorems: single-key Groupby is the stable partition by Go == with KeyOrder = first appearance, missing column iff error. The key-list form "
+             "is proved partial (under injectivity of the joined text) and refuted in general; the refutation is the recorded finding D5.", "6.4",
+             "The key-list defect (composite '|'-joined text key) is a KNOWN-FINDING: the model is faithful to it and the partition specification evaluated "
+             "on the implementation's groups reports exactly that class."),
+    "C05": m("Theorems: Count = group size, Sum/Mean over exactly the cells of any integer/float width, mean divides by the number of numeric cells, "
+             "conservation of totals in exact arithmetic, result shape. The real grouped aggregates are compared bit for bit with the model's "
+             "binary64 arithmetic.", "6.5", "Conservation is proved on exact sums; the bit-exact float model is validated, not proved, against Go."),
+    "C06": m("Theorems: any sequence of Swap calls keeps whole rows together (covers whatever sort.Sort does), the model's result is a permutation of the "
+             "input rows, the comparator is a strict weak order on one-kind columns, insertion sort under such a comparator is sorted, nil last in both "
+             "directions. The real SortValues output is checked through the ordered-permutation specification (tie order free) and on its sort columns.", "6.6",
+             "sort.Sort itself is standard-library code: modelled by a verified insertion sort; its contract (sorts under a strict weak order, touches data "
+             "only through Less/Swap) is assumed."),
+    "C07": m("Theorems: first/last/none keep exactly the first/last/unique member of every class of identical rows, in order, no false merge whatever the "
+             "characters, one per class, bad Keep/subset are errors, Inplace keeps the same rows.", "6.7", ""),
+    "C08": m("Theorems (L1 = L0): Head/Tail/RowSlice/Filter/Iloc/Row/DropRow/DropColumn return exactly the denoted rows and columns with whole rows intact; "
+             "the predicate sees each row once; error iff out of range. Exhaustive boundary arguments on small frames plus random calls on the real library.", "6.8", ""),
+    "C09": m("Theorem: for records of any bytes except CR-LF pairs, parsing what the writer wrote returns the records (full model of encoding/csv reader and "
+             "writer); exporter-to-importer link. The bytes written by ToCSVWriter are compared byte for byte with the model writer and the re-imported "
+             "frame with the model reader.", "6.9",
+             "The cell-level float round trip relies on strconv (ParseFloat(FormatFloat(x)) = x), an oracle premise validated per case."),
+    "C10": m("Theorems: the importer never panics for any byte string; it is an error exactly for unparsable records, width mismatch, empty input or repeated "
+             "header names; otherwise a rectangular frame typed by the one rule. Every byte string up to a length over six bytes plus grammar/mutation streams "
+             "are run on the real importer.", "6.10", "ParseFloat's own grammar is an oracle; panics inside encoding/csv are outside the model."),
+    "C11": m("Theorems on the statement model: batches concatenate to the rows with 1..BatchSize rows each, placeholders = bound values, PostgreSQL numbering 1..k, "
+             "nil bound as NULL, effect on an ideal table store, created column types. The statement texts and bound values reaching a driver written for "
+             "the harness are compared exactly with the model, the driver's own SQL parser/table store with the model's store and the effect specification.", "6.11",
+             "SQL engines are modelled as one ideal table store; uint64 values above MaxInt64 are not modelled."),
+    "C12": m("Theorems: for every scenario and every fault or cancellation index the model run returns an error with the committed store unchanged and no "
+             "commit; success commits exactly once, last; Tx variants never finish the transaction. A failure is injected at each individual driver call "
+             "and a cancellation after each call of the real ToSQL.", "6.12",
+             "Partial w.r.t. the runtime: database/sql's own rollback goroutine and engines whose DDL is not transactional are outside the model."),
+    "C13": m("Theorem: for every byte string, the dialect's lexer reads the quoted identifier back as exactly that name and stops there; quoting is injective; "
+             "the identifiers of whole statements are the intended ones. Exhaustive names over the hostile alphabet in three dialects; whole exports with "
+             "hostile names executed by an independent lexer.", "6.13", "TypeMap texts are raw SQL by contract and excluded."),
+    "C14": m("Theorems on the import model: never a partial frame, NULL policy table, skip_row drops exactly the rows containing NULL, declared-type mapping, "
+             "ParseDates layouts in order. Result sets served by the harness's driver under every NULL pattern/handler, entry point and injected error.", "6.14",
+             "database/sql's convertAssign is exercised only on type-matching values plus non-numeric text in a non-text column; time.Parse/Unix are oracles."),
+    "C15": m("Theorems: FillNa/DropNa exact, Astype/AddDatetimeIndex conversion table, all-or-nothing (an error leaves every frame unchanged).", "6.15", ""),
+    "C16": m("Theorems: Min/Max ignore NaN anywhere, error iff non-numeric cell or empty, Describe agrees with Series aggregates, binary64 sum exact where "
+             "binary64 is exact, Add cell table and fill. The real aggregates are compared bit for bit with the model's binary64 arithmetic.", "6.16",
+             "Rounding error bounds w.r.t. real arithmetic are not proved; the model reproduces Go's left-to-right float64 evaluation."),
+    "C17": m("Theorems: the collector's result is the same for every completion order of the per-row results (all permutations), equals the sequential loop; "
+             "function applied once per row / once per column. The real Apply is compared with the sequential model on both axes.", "6.17",
+             "Partial: data-race freedom is a property of the Go memory model that the Gallina model cannot exhibit; the harness runs Apply under forced "
+             "completion orders and the race detector as supporting evidence only."),
+    "C18": m("Theorems: one bucket per distinct truncated time, strictly ascending, independent of row/iteration order; cells aggregate exactly the bucket's "
+             "cells in row order; truncation idempotent and not after the timestamp. Each real call is repeated 5 times.", "6.18",
+             "Partial: the calendar (time.Date, zones, DST) is not modelled; frames use UTC or one fixed offset."),
+    "C19": m("Theorems over the model for all columns and all int64 offsets (wrap-around of i-p included): cell-level specification, shape, "
+             "Shift(0)=copy, round trip. Exhaustive small scope + random on the real library.", "6.19", ""),
+    "C20": m("Theorems: no operation of the model panics on well-formed frames whatever the arguments (Panic is an explicit outcome of the model wherever the "
+             "code indexes, reslices or asserts), an error leaves all frames unchanged, table of invalid requests that are errors. Histories with 50% "
+             "deliberately invalid arguments are run on the real library under recover.", "6.20",
+             "Partial: the list of panic sources is the hand transcription; recover in the harness observes the real thing."),
 }
